@@ -24,6 +24,7 @@ var probeAddrs = []uint32{0, 8, 16, 24, 32, 40, 48, 56, lastCell}
 
 type leafSpec struct {
 	Kind   string `json:"kind"`             // ok | inc | trap | rec | ghp | gexit | obs | hp | hexit
+	Which  int    `json:"which,omitempty"`  // strap: 0 = owner of the shared memory, 1 = its importer
 	Ind    bool   `json:"ind,omitempty"`    // ghp/gexit/obs: the guest reaches the host function through call_indirect
 	ViaImp bool   `json:"viaimp,omitempty"` // ghp/gexit/obs: target is A, which calls B's export through its wasm import
 	Target int    `json:"target"`
@@ -48,7 +49,8 @@ type step struct {
 }
 
 type op struct {
-	Kind   string `json:"op"` // inc store tset tcall trap rec ghp gexit nest start reinst close
+	Kind   string `json:"op"`              // inc store tset tcall trap rec ghp gexit nest start reinst close
+	Which  int    `json:"which,omitempty"` // sinc/strap: 0 = owner of the shared memory, 1 = its importer
 	Slot   int    `json:"slot"`
 	K      int    `json:"k,omitempty"`
 	D      uint32 `json:"d,omitempty"`
@@ -70,6 +72,7 @@ type op struct {
 	WantRes   []uint64    `json:"want_res,omitempty"`
 	WantHost  []string    `json:"want_host,omitempty"` // what the host function at each level must observe from its nested call
 	After     [nSlot]snap `json:"-"`
+	AfterShm  uint64      `json:"-"`                   // counter in the shared memory after the op
 	Fails     []failRec   `json:"fails,omitempty"`     // failures injected by this op (kind, nesting depth)
 	WantMods  []modEvt    `json:"want_mods,omitempty"` // which instance every instrumented host function must be handed, in call order
 }
@@ -116,6 +119,10 @@ func (o *op) desc() string {
 		fmt.Fprintf(&sb, "(code=%d,how=%d%s)", o.Code, o.How, formSuffix(o.Ind, o.ViaImp))
 	case "obs":
 		fmt.Fprintf(&sb, "(%d%s)", o.K, formSuffix(o.Ind, o.ViaImp))
+	case "sinc":
+		fmt.Fprintf(&sb, "(%s)", shmNames[o.Which])
+	case "strap":
+		fmt.Fprintf(&sb, "(%s,%s)", shmNames[o.Which], sharedAtomicKinds[o.K].name())
 	case "nest", "start":
 		if o.Via {
 			sb.WriteString("via_peer")
@@ -145,6 +152,8 @@ func (o *op) desc() string {
 					fmt.Fprintf(&sb, ":%d,how=%d", l.Code, l.How)
 				case "inc":
 					fmt.Fprintf(&sb, "@%d", l.Target)
+				case "strap":
+					fmt.Fprintf(&sb, ":%s@%s", sharedAtomicKinds[l.TrapK].name(), shmNames[l.Which])
 				}
 			} else if s.Via {
 				fmt.Fprintf(&sb, "via_peer@%d", s.Target)
@@ -202,9 +211,15 @@ func (in *minst) snap() snap {
 	return s
 }
 
+var (
+	shmNames          = [2]string{"shm", "shs"}
+	sharedAtomicKinds = atomicKinds(true)
+)
+
 type model struct {
 	inst   [nSlot]*minst
-	viaImp bool // the code being simulated was entered through A's wasm import of B
+	shm    uint64 // the counter at address 0 of the shared memory
+	viaImp bool   // the code being simulated was entered through A's wasm import of B
 }
 
 // hostCall records that code of instance in calls an instrumented host function.
@@ -262,6 +277,14 @@ func (m *model) doTrap(o *op, depth int, in *minst, k int, addr uint32, val uint
 	in.cells[addr] = val
 	o.Fails = append(o.Fails, failRec{"trap:" + trapKinds[k].Name, depth})
 	return &merr{"trap:" + trapKinds[k].Class}
+}
+
+// doShTrap: atrap of the shared-memory pair: atomic counter+1, then the failing atomic access.
+func (m *model) doShTrap(o *op, depth int, k int) *merr {
+	m.shm++
+	ak := sharedAtomicKinds[k]
+	o.Fails = append(o.Fails, failRec{"shared-" + ak.name(), depth})
+	return &merr{"trap:" + ak.class()}
 }
 
 func (m *model) doRec(o *op, depth int, in *minst, k int, d uint32, a uint64, addr uint32, val uint64) (uint64, *merr) {
@@ -347,12 +370,14 @@ func (m *model) simHop(o *op, caller *minst, level int) (uint64, *merr) {
 	called := true
 	if l := s.Leaf; l != nil {
 		var t *minst
-		if l.Kind != "ok" && l.Kind != "hp" && l.Kind != "hexit" {
+		if l.Kind != "ok" && l.Kind != "hp" && l.Kind != "hexit" && l.Kind != "strap" {
 			t = m.inst[l.Target]
 		}
 		switch l.Kind {
 		case "ok":
 			called = false
+		case "strap":
+			e = m.doShTrap(o, level+1, l.TrapK)
 		case "hp":
 			o.Fails = append(o.Fails, failRec{"host-panic:" + hostPanics[l.HK].Name, level + 1})
 			return 0, &merr{hostPanics[l.HK].Class}
@@ -460,6 +485,11 @@ func (m *model) apply(o *op) {
 	case "close":
 		m.closeInst(in, o.Code)
 		o.WantClass = "ok"
+	case "sinc":
+		m.shm++
+		o.WantRes = []uint64{m.shm}
+	case "strap":
+		e = m.doShTrap(o, 0, o.K)
 	case "start":
 		o.WantHost = make([]string, len(o.Steps))
 		n := newMinst(-1) // the module being instantiated; its state is never visible
@@ -547,6 +577,7 @@ func (m *model) apply(o *op) {
 			o.After[i] = in.snap()
 		}
 	}
+	o.AfterShm = m.shm
 }
 
 // ---------------------------------------------------------------------------
@@ -589,6 +620,15 @@ func (g *gen) addrVal() (uint32, uint64) {
 	return uint32(8 * g.r.Intn(4)), g.r.I64()
 }
 
+// trapKind: half of the injected traps are the hand-written kinds, half the
+// generated atomic out-of-bounds / unaligned kinds.
+func (g *gen) trapKind() int {
+	if g.r.Bool() {
+		return g.r.Intn(nBaseTraps)
+	}
+	return nBaseTraps + g.r.Intn(len(trapKinds)-nBaseTraps)
+}
+
 func (g *gen) recDepth() uint32 {
 	return []uint32{0, 1, 2, 3, 10, 64, 100, 400, 900, 1200}[g.r.Intn(10)]
 }
@@ -598,7 +638,9 @@ func (g *gen) leaf(open []int, start bool) *leafSpec {
 	l := &leafSpec{}
 	if len(open) == 0 {
 		// only host-side leaves are possible
-		switch r.Intn(3) {
+		switch r.Intn(4) {
+		case 3:
+			l.Kind, l.Which, l.TrapK = "strap", r.Intn(2), r.Intn(len(sharedAtomicKinds))
 		case 0:
 			l.Kind = "ok"
 		case 1:
@@ -612,7 +654,7 @@ func (g *gen) leaf(open []int, start bool) *leafSpec {
 	l.Addr, l.Val = g.addrVal()
 	switch w := r.Intn(100); {
 	case w < 34:
-		l.Kind, l.TrapK = "trap", r.Intn(len(trapKinds))
+		l.Kind, l.TrapK = "trap", g.trapKind()
 	case w < 44:
 		l.Kind, l.HK = "hp", r.Intn(len(hostPanics))
 	case w < 54:
@@ -628,14 +670,16 @@ func (g *gen) leaf(open []int, start bool) *leafSpec {
 			g.soLeft--
 			l.Kind, l.RecK, l.RecD, l.RecA = "rec", r.Intn(4), recInf, r.I64()
 		} else {
-			l.Kind, l.TrapK = "trap", r.Intn(len(trapKinds))
+			l.Kind, l.TrapK = "trap", g.trapKind()
 		}
 	case w < 79:
 		l.Kind, l.Code, l.How = "gexit", g.code(start), r.Intn(3)
 		g.form(l.Target, &l.Ind, &l.ViaImp)
 	case w < 83:
 		l.Kind, l.Code, l.How = "hexit", g.code(start), 1+r.Intn(2)
-	case w < 92:
+	case w < 87:
+		l.Kind, l.Which, l.TrapK = "strap", r.Intn(2), r.Intn(len(sharedAtomicKinds))
+	case w < 93:
 		l.Kind = "ok"
 	default:
 		l.Kind = "inc"
@@ -660,7 +704,7 @@ func (g *gen) steps(open []int, start bool) []step {
 		if r.Chance(1, 14) {
 			s.ThenHP = r.Intn(len(hostPanics))
 		} else if r.Chance(1, 9) {
-			s.Dir = r.Intn(len(trapKinds))
+			s.Dir = g.trapKind()
 		}
 		if i == d-1 {
 			s.Leaf = g.leaf(open, start)
@@ -718,8 +762,12 @@ func (g *gen) next() *op {
 	o.Slot = g.pick(open)
 	o.Addr, o.Val = g.addrVal()
 	switch w := r.Intn(100); {
-	case w < 9:
+	case w < 7:
 		o.Kind = "inc"
+	case w < 8:
+		o.Kind, o.Which = "sinc", r.Intn(2)
+	case w < 12:
+		o.Kind, o.Which, o.K = "strap", r.Intn(2), r.Intn(len(sharedAtomicKinds))
 	case w < 16:
 		o.Kind = "store"
 	case w < 21:
@@ -727,7 +775,7 @@ func (g *gen) next() *op {
 	case w < 26:
 		o.Kind = "tcall"
 	case w < 40:
-		o.Kind, o.K = "trap", r.Intn(len(trapKinds))
+		o.Kind, o.K = "trap", g.trapKind()
 	case w < 46:
 		o.Kind, o.K, o.D, o.A = "rec", r.Intn(4), g.recDepth(), r.I64()
 	case w < 50:
@@ -735,7 +783,7 @@ func (g *gen) next() *op {
 			g.soLeft--
 			o.Kind, o.K, o.D, o.A = "rec", r.Intn(4), recInf, r.I64()
 		} else {
-			o.Kind, o.K = "trap", r.Intn(len(trapKinds))
+			o.Kind, o.K = "trap", g.trapKind()
 		}
 	case w < 57:
 		o.Kind, o.K = "ghp", r.Intn(len(hostPanics))
